@@ -90,6 +90,8 @@ def listRec (s : St Float) (t : Int) : Rec :=
   (Rec.mk' "list").addI "t" t |>.addIs "uids" (joinI (Int.ofNat ·.uid)) |>.addIs "names" (joinI (Int.ofNat ·.name))
     |>.addIs "srcs" (joinI (·.source)) |>.addIs "durs" (joinI (·.dur)) |>.addIs "counts" (joinI (·.count))
     |>.addIs "maxs" (joinI (·.maxCount)) |>.addIs "renew" (joinI (Int.ofNat ·.renew))
+    |>.addIs "cadds" (joinI (·.countAdd))
+    |>.addS "imms" (",".intercalate (l.map fun i => if i.tickImm then "1" else "0"))
     |>.addS "p2" (",".intercalate (l.map fun i => if i.canTickP2 then "1" else "0"))
     |>.addS "stats" (";".intercalate (l.map fun i => if (statsStr i.stats) == "" then "-" else statsStr i.stats))
     |>.addF "atkpct" atkpct |>.addF "reduce" (propTotal (baseOf t) l 90)
